@@ -3,7 +3,6 @@ package builder
 import (
 	"errors"
 	"fmt"
-	"sort"
 
 	"github.com/mna/pigeon/ast"
 )
@@ -32,16 +31,23 @@ func PrepareGrammar(grammar *ast.Grammar) (bool, error) {
 
 // ComputeNullables evaluates nullable nodes.
 func ComputeNullables(rules map[string]*ast.Rule) {
-	// Compute which rules in a grammar are nullable. The flags cached in the
-	// nodes depend on the rule from which a traversal starts, so the rules are
-	// visited in a fixed order (map iteration order is random).
-	names := make([]string, 0, len(rules))
-	for name := range rules {
-		names = append(names, name)
-	}
-	sort.Strings(names)
-	for _, name := range names {
-		rules[name].NullableVisit(rules)
+	// Compute which rules in a grammar are nullable: the least fix-point,
+	// starting with no nullable rule. Every round computes the flags of all
+	// rules from the flags of the previous round only, so that the result
+	// (including the flags cached in the nodes) does not depend on the order
+	// in which the map is iterated, and the work is polynomial.
+	for changed := true; changed; {
+		changed = false
+		next := make(map[string]bool, len(rules))
+		for name, rule := range rules {
+			next[name] = rule.Expr.NullableVisit(rules)
+		}
+		for name, nullable := range next {
+			if rules[name].Nullable != nullable {
+				rules[name].Nullable = nullable
+				changed = true
+			}
+		}
 	}
 }
 
